@@ -53,7 +53,7 @@ func runC01(p *Program, r *Report) {
 	for _, m := range []struct {
 		r string
 		n int
-	}{{"C01.R1", 12}, {"C01.R2", 9}, {"C01.R3", 4}, {"C01.R4", 1}, {"C01.R5", 12}, {"C01.R6", 6}, {"C01.R7", 8}, {"C01.R8", 1}, {"C01.R9", 7}, {"C01.R10", 2}, {"C01.R11", 1}, {"C01.R12", 15}, {"C01.R13", 1}, {"C01.R14", 3}} {
+	}{{"C01.R1", 12}, {"C01.R2", 9}, {"C01.R3", 4}, {"C01.R4", 1}, {"C01.R5", 12}, {"C01.R6", 6}, {"C01.R7", 8}, {"C01.R8", 1}, {"C01.R9", 7}, {"C01.R10", 2}, {"C01.R11", 1}, {"C01.R12", 15}, {"C01.R13", 1}, {"C01.R14", 3}, {"C01.R15", 5}, {"C01.R16", 3}} {
 		r.Min(m.r, m.n)
 	}
 	checkSpeculativeMerge(p, r, "C01.R9")
@@ -320,6 +320,8 @@ func runC01(p *Program, r *Report) {
 	}
 	// ---- R5 field completeness ------------------------------------------------------------------------
 	checkContextFieldCompleteness(p, r)
+	checkContextEqStrict(p, r, "C01.R15")
+	checkActionAdvance(p, r, "C01.R16")
 	// ---- R6 joins -----------------------------------------------------------------------------------------
 	checkJoins(p, r)
 	checkMemoOutput(p, r, "C01.R6")
